@@ -47,7 +47,7 @@ def case(draw, tier):
         if mode == "passive":
             # the twin reads one input passively (wiring-time tag): same definition, same sources, different activation
             plain = [k for k, r in enumerate(x["ins"]) if isinstance(r, str)]
-            if len(x["ins"]) >= 2 and plain and not x.get("active"):
+            if len(plain) >= 2 and not x.get("active"):      # (another plain input stays active: the engine refuses a node with none)
                 dup["slot"] = draw(st.sampled_from(plain))
             else:
                 dup["near"] = mode = "bias"
